@@ -342,13 +342,12 @@ def run_conv(ob, scratch):
             continue
         reached += 1
         copied = o.ret
-        try:
+        # untouched target = the whole 8-byte initial pattern is still there
+        whole = z3.simplify(o.mem.load(out, 8))
+        if z3.is_bv_value(whole) and whole.as_long() == 0x5555555555555555:
+            word = None
+        else:
             word = o.mem.load(out, bits // 8)
-            w_ = z3.simplify(word)
-            if bits == 64 and z3.is_bv_value(w_) and w_.as_long() == 0x5555555555555555:
-                word = None                 # untouched: still the initial pattern
-        except llsym.Unsupported:
-            word = None                     # untouched (the 8-byte initial pattern is still there)
         e = o.mem.load(err, 8)
         representable = z3.And(is_long, N >= lo, N <= hi)
         asint = (z3.BV2Int(word, is_signed=signed) if word is not None else None)
